@@ -44,9 +44,9 @@ def filters(thorough):
             fs = plain + paths + lams
             # two-atom compositions: (path|lambda) x plain, lambda x path, lambda x lambda (strided)
             nav = paths + lams
-            fs += RL.compositions(nav[::5], plain[:2])
-            fs += RL.compositions(lams[::7], paths[::9])
-            fs += RL.compositions(lams[::9], lams[1::11])
+            fs += RL.compositions(nav[::9], plain[:2])
+            fs += RL.compositions(lams[::11], paths[::13])
+            fs += RL.compositions(lams[::13], lams[1::17])
             if thorough:
                 fs += RL.compositions(nav[::2], plain[:3])
                 fs += RL.compositions(lams[::3], paths[::4])
@@ -229,7 +229,7 @@ def run(ctx):
     if ctx.quick:
         # fixed core: families C, E, F completely + every 12th of A, B, D; plus a seed-selected block of A/B/D
         core = fam_idx["C"][::4] + fam_idx["E"] + fam_idx["F"]
-        B = 24
+        B = 32
         block = [i for fam in ("A", "B", "D") for j, i in enumerate(fam_idx[fam]) if j % B == ctx.seed % B]
         chosen = sorted(set(core + block))
         prod_members = sorted(set(fam_idx["E"] + fam_idx["C"][::5] + fam_idx["A"][::9] + fam_idx["B"][::9] + fam_idx["D"][::20]))
@@ -242,7 +242,7 @@ def run(ctx):
     nf = sum(len(v) for v in filters(not ctx.quick).values())
     ctx.layer("small-instances", instances=len(chosen), of=n, families={k: len(v) for k, v in fam_idx.items()}, filters=nf,
               backends=list(BACKENDS), exhaustive=not ctx.quick,
-              note="quick: families C(1/4), E, F + block VERIF_SEED mod 24 of A, B, D; thorough: all instances")
+              note="quick: families C(1/4), E, F + block VERIF_SEED mod 32 of A, B, D; thorough: all instances")
 
 
 def replay(ctx, case):
